@@ -73,8 +73,14 @@ def parseCfg (args : List String) : Option PlanArgs := do
   let cfg : Config := { envelopeId := id, threshold := t, totalShares := total, grants := gs }
   some ⟨nkeys, if kv args "nil" = some "1" then none else some cfg, payload, bad⟩
 
+/-- an offered key of the abstract `run` op: `k < 100` is toy key `k`; `100 + k` is a shadow of
+toy key `k` (reports its public key, decrypts nothing: `shadowPrims`); `200…` is a nil entry of
+the Go slice, which `matchPrivKeys` skips -/
+def offeredKey (k : Nat) : Option Bytes :=
+  if k < 100 then some (toyKey k) else if k < 200 then some (toyKey (k - 100) ++ [9]) else none
+
 def toyBuild (a : PlanArgs) : Outcome Envelope :=
-  buildKeys toyPrims zl toySecret (fun i => 1000 + 17 * i) toyNonce toyCtx a.payload
+  buildKeys shadowPrims zl toySecret (fun i => 1000 + 17 * i) toyNonce toyCtx a.payload
     ((List.range a.nkeys).map fun i => if a.bad.contains i then none else some (toyKey i)) a.cfg
 
 /-- `auto` when the envelope carries the id derived from secret ‖ context, else the id itself -/
@@ -96,16 +102,15 @@ def lookupDec (t : DecTable) (sk ctx c : Bytes) : Option Bytes :=
   | some e => e.2
   | none => none
 
-/-- every decryption the grant loop could attempt, in order (a superset of what it does attempt) -/
-def decQueries (matched : Nat → Option Bytes) (envId ctx : Bytes) : Nat → List Grant → List (Bytes × Bytes × Bytes)
+/-- every decryption the grant loop could attempt, in order (a superset of what it does attempt):
+per (keypair index, ciphertext) pair, every offered key that reports that keypair's PEM -/
+def decQueries (matched : Nat → List Bytes) (envId ctx : Bytes) : Nat → List Grant → List (Bytes × Bytes × Bytes)
   | _, [] => []
   | gi, g :: rest =>
     let here :=
       if g.keypairIndexes.length ≠ g.ciphertexts.length then []
-      else (g.keypairIndexes.zip g.ciphertexts).filterMap fun (k, c) =>
-        match matched k with
-        | none => none
-        | some sk => some (sk, grantEncContext envId ctx gi, c)
+      else (g.keypairIndexes.zip g.ciphertexts).flatMap fun (k, c) =>
+        (matched k).map fun sk => (sk, grantEncContext envId ctx gi, c)
     here ++ decQueries matched envId ctx (gi + 1) rest
 
 def parseAns (s : String) : Option (Option Bytes) :=
@@ -134,7 +139,7 @@ def unlockWireOracle (args : List String) : Option String := do
     | .err .noKeypairs => some "err noKeypairs"
     | .err .contextMismatch => some "err contextMismatch"
     | _ =>
-      let matched := matchKey base env keys
+      let matched := matchKeys base env keys
       let qs := decQueries matched env.envelopeId ctx 0 env.grants
       let answers : Option (List (Option Bytes)) :=
         match kv args "dec" with
@@ -242,7 +247,7 @@ def handle (op : String) (args : List String) : Option String :=
     | .err e => some ("builderr " ++ showErr e)
     | .panic => some "buildpanic"
     | .ok env =>
-      match unlock toyPrims zl toyCtx env (offer.map toyKey) with
+      match unlock shadowPrims zl toyCtx env (offer.filterMap offeredKey) with
       | .opened p r => some ((if p = toyPayload then "opened payload=orig " else "opened payload=OTHER ") ++ showResult r)
       | o => some (showUnlock o)
   | "ctxhash" => do
